@@ -187,6 +187,8 @@ Single == phase = "done" /\ Len(prog) = 1
 InstrRoundTrip == Single /\ ~HasPh(prog[1]) /\ (JudgeAmbiguousDelay \/ ~DelayAmbiguous(prog[1])) => PrintsAndReadsBack(prog[1])
 InstrPrintStable == Single /\ ~HasPh(prog[1]) /\ ~Api => PrintIsStable(prog[1])
 ParseNormalIsFixpoint == Single /\ ~Api => CanonI(prog[1]) = prog[1]
+\* the writer leaves no DELAY whose printed duration can also be read as further qubits and a shorter duration
+NoAmbiguousDelay == Single => ~DelayAmbiguous(prog[1])
 Placeholders == Single => PlaceholderIffFails(prog[1])
 \* (for a single instruction InstrRoundTrip and InstrPrintStable say the same)
 ProgramLevel == phase = "done" /\ ~Api /\ Len(prog) >= 2 => ProgramRoundTrip(prog)
